@@ -339,6 +339,41 @@ fn long_run_real(aead: AeadId, n: u64) -> Result<u64, (String, String)> {
     Ok(n)
 }
 
+/// probes/c04: can a sender context be duplicated through `Clone`? Two copies share key, base nonce
+/// and counter, so the i-th message of each is sealed under the same (key, nonce).
+fn duplication_probe(x: &mut Extra) {
+    let tree = std::env::var("HPKE_TREE").unwrap_or_else(|_| "/repo".into());
+    let tbase = std::env::var("VERIF_TARGET_BASE").unwrap_or_else(|_| crate::engine::root().join("target").to_string_lossy().into_owned());
+    let dir = crate::engine::root().join("probes").join("c04");
+    let mut cmd = std::process::Command::new("cargo");
+    cmd.current_dir(&dir).env("CARGO_NET_OFFLINE", "true").env_remove("RUSTFLAGS").args(["run", "--offline", "--quiet", "--target-dir", &format!("{}/c04probe", tbase)]);
+    if tree != "/repo" {
+        cmd.args(["--config", &format!("paths=[\"{}\"]", tree)]);
+    }
+    let out = match cmd.output() {
+        Ok(o) => o,
+        Err(e) => {
+            x.notes.insert("sender_duplication_probe".into(), json!({"status": format!("not run: {}", e)}));
+            return;
+        }
+    };
+    let stdout = String::from_utf8_lossy(&out.stdout);
+    if !out.status.success() || !stdout.lines().any(|l| l.trim() == "DONE") {
+        x.notes.insert("sender_duplication_probe".into(), json!({"status": "unobservable: the probe does not build against this tree"}));
+        return;
+    }
+    let dup = stdout.lines().any(|l| l.trim() == "SENDER_CONTEXT_CLONE=true");
+    x.evaluations += 1;
+    x.notes.insert("sender_duplication_probe".into(), json!({"status": "run", "sender_context_is_clone": dup}));
+    if dup {
+        x.failure = Some((
+            "C04/sender-context-duplicable".into(),
+            "AeadCtxS implements Clone: a copy of a sender context shares key, base nonce and sequence counter with the original, so message i of the copy and message i of the original are sealed under the same nonce".into(),
+            json!({"probe": "sender_duplication"}),
+        ));
+    }
+}
+
 impl Property for P {
     type Case = Case;
     fn id(&self) -> &'static str {
@@ -348,7 +383,7 @@ impl Property for P {
         "Generated: histories over one sender context: Seal(pt,aad) through seal / seal_in_place_detached, Export, JumpTo(n) (hook; n from every byte-carry boundary 2^(8k)-1-d / 2^(8k)+d, 2^64-1-d, log-uniform, small), Burst(k<=300); half of the cases on the recording SpyAead, half on the 3 real AEADs. \
          Swept: every boundary position x {Spy, AES-128-GCM, AES-256-GCM, ChaCha20Poly1305} with a burst that crosses it and, at the top, runs into the limit; public-API-only runs from position 0 (Spy + 3 real AEADs, length in coverage.long_runs). \
          Oracle: model (seq, dead). Spy: recorded nonce == stored base nonce XOR BE64(i) left-padded (absolute), pairwise distinct, one AEAD call per seal with the caller's aad/length. Real AEADs: ct == AEAD(key_ref, B XOR BE(i), aad, pt); on mismatch trial decryption under neighbouring nonces separates a wrong nonce (violation) from a key that differs from the reference (skipped); keystream-collision detector for reuse. Limit: seal at 2^64-1 succeeds, afterwards MessageLimitReached forever, buffer unchanged, no AEAD call; hook state == model after every step. \
-         Non-trivial: a history that crosses a byte carry, or reaches exhaustion, or has >=3 seals."
+         Compile probe probes/c04: the sender context must not be duplicable through Clone (a copy would share key, base nonce and counter). Non-trivial: a history that crosses a byte carry, or reaches exhaustion, or has >=3 seals."
             .into()
     }
     fn assumptions(&self) -> Vec<String> {
@@ -419,8 +454,15 @@ impl Property for P {
             }
         }
         x.notes.insert("long_runs".into(), serde_json::Value::Object(runs));
+        if x.failure.is_none() {
+            duplication_probe(x);
+        }
     }
     fn replay_extra(&self, payload: &serde_json::Value, x: &mut Extra) {
+        if payload["probe"] == "sender_duplication" {
+            duplication_probe(x);
+            return;
+        }
         let n = payload["n"].as_u64().unwrap_or(70_000);
         let r = match payload["long_run"].as_str() {
             Some("spy") => long_run_spy(n),
